@@ -15,10 +15,28 @@ def run(ctx, vlib):
     cases = U.load_corpus("C05") + P.reader_cases(ctx["rng"], ctx["tier"], skip_only=True)
     oi = vlib.run_driver(impl, cases)
     om = vlib.run_driver(model, cases)
-    return P.assess("C05", vlib, cases, oi, om, P.judge_reader,
+    res = P.assess("C05", vlib, cases, oi, om, P.judge_reader,
                     nontrivial=lambda line, out: out.startswith("NOT") or out.startswith("OK -"),
                     rule="Skip policies only: every first byte x tails and random value trees (independent encoder, random format widths, nesting) followed by further data, read by a target of another kind (skip, nil, str, int32, uint8, double, array/map/bin size, timestamp) through both readers; non-trivial = distinct case in which a value was actually skipped (answer NOT <consumed> or OK - <consumed>)")
 
 
+    # typed level (seeded change S23: a tuple loader that stops at the first skipped component): whole value trees loaded
+    # through LoadObject<MsgPackArchive> from documents in which values of other kinds / nulls / out-of-range numbers stand at
+    # every position, under the four policy settings, against the extracted typed load model (mpscope family, C01mp): every
+    # neighbour of a skipped value must load as the model says
+    import C01mp
+    ml = C01mp.run_mpload(ctx, vlib)
+    res["evaluations"] = res.get("evaluations", 0) + ml.get("evaluations", 0)
+    res["failing"] = (res.get("failing") or []) + [dict(f, why="typed level: " + str(f.get("why", ""))) for f in ml.get("failing", [])][:20]
+    res["diffs"] = (res.get("diffs") or []) + ml.get("diffs", [])
+    for k, v in ml.get("classes", {}).items():
+        res.setdefault("classes", {})["typed " + str(k)] = v
+    res["rule"] = res.get("rule", "") + "; typed level: random shapes (scalars, strings, byte containers, vectors, fixed arrays, tuples, classes, maps, optionals) loaded from saved, re-encoded and perturbed documents (values of other kinds, nulls, out-of-range numbers, missing / extra members) under the four policy settings, compared with the extracted typed load model"
+    return res
+
+
 def replay(rp, vlib):
+    if str(rp.get("case", "")).startswith(("ld ", "ldp ")):
+        import C01mp
+        return C01mp.replay_mpload(rp, vlib)
     return P.replay(rp, vlib, P.judge_reader)
